@@ -4,7 +4,9 @@ kind 0  [0, configs, init, reent, progs, sched]   real threads single-stepped al
 kind 1  [1, configs, probes, [loggers, swappers, min_records, swaps]]   free-running stress
 kind 2  [2, configs, old, new, [target, level]]   probe logged from Drop of the old appenders during set_config
 kind 3  [3, fmt, texts, [m0, ti0], steps]         VerifReloader stepped over a file history
-kind 4  [4, fmt, texts, [m0, ti0], steps]         the real reloader thread (child process per scenario)"""
+kind 4  [4, fmt, texts, [m0, ti0], steps]         the real reloader thread (child process per scenario)
+kind 5  [5, configs, seq, probes]                 GLOBAL logger behind the log facade (child process per scenario):
+                                                  init_config, then set_config per seq entry, probes through log!"""
 import itertools
 import subprocess
 from concurrent.futures import ThreadPoolExecutor
@@ -23,7 +25,11 @@ RULE = ("Part A. kind 0: real threads driven by a controller that releases one t
         "revert} of length 4 (quick) / 6 (thorough) in YAML, plus random histories up to length 8 that add "
         "{unreadable (invalid UTF-8), same-mtime edit, valid change carrying an undeserialisable extra appender} "
         "in YAML/JSON/TOML; mtimes set with utimensat. kind 4: the "
-        "real init_file reloader thread over hand-picked and random histories. "
+        "real init_file reloader thread over hand-picked and random histories. kind 5: the GLOBAL logger "
+        "(init_config in a child process), every ordered pair of 7 configs (equal and different root levels, "
+        "child loggers more / less verbose than the old tree's maximum, root off) plus random longer sequences; "
+        "after each set_config returned a 5 targets x 5 levels grid is logged through the log! macro (which "
+        "consults log::max_level) and must be delivered along the NEW configuration's route only. "
         "non-trivial = a scenario with a swap (kind 0/1/2) or a history with a change of the file (kind 3/4); "
         "distinct = distinct case line")
 ASSUMPTIONS = [
@@ -262,8 +268,36 @@ LIVE = [[3, 0], [4, 0], [6, 0], [5, 0], [2, 0], [8, 0], [0, 3, 7], [3, 4, 3, 0],
         [4, 4, 7, 0], [5, 3, 0]]
 
 
+def facade_pool():
+    return [
+        [1, ["a", "b"], [3, ["a"]], [["x", 3, 1, ["b"]]]],
+        [2, ["a", "b"], [3, ["a"]], [["x", 5, 1, ["b"]]]],                      # same root, child more verbose
+        [3, ["a", "b"], [3, ["a"]], [["x", 1, 1, []], ["x::y", 5, 0, ["b"]]]],  # same root, deep child verbose
+        [4, ["a", "b"], [1, ["a"]], [["x", 1, 1, ["b"]]]],
+        [5, ["a"], [5, ["a"]], []],
+        [6, ["a"], [0, ["a"]], [["q", 4, 1, ["a"]]]],                           # root off, one child on
+        [7, ["a", "b", "c"], [3, ["a"]], [["x", 3, 1, ["b"]], ["q", 5, 0, ["c", "a"]]]],
+    ]
+
+
+FACADE_PROBES = [[t, l] for t in PROBE_T for l in (1, 2, 3, 4, 5)]
+
+
+def facade_cases(rng, tier):
+    pool = facade_pool()
+    out = []
+    for i in range(len(pool)):
+        for j in range(len(pool)):
+            if i != j:
+                out.append([5, pool, [i, j], FACADE_PROBES])
+    for _ in range(8 if tier == "quick" else 60):
+        out.append([5, pool, [rng.below(len(pool)) for _ in range(rng.range(3, 6))], FACADE_PROBES])
+    return out
+
+
 def cases(rng, tier):
     out = []
+    out += facade_cases(rng, tier)
     out += reentrant_cases()
     out += position_cases()
     out += drop_cases()
@@ -290,7 +324,8 @@ def run_impl(ctx, cases, lines):
     vc = ctx["vc"]
     vh = ctx["vh"]
     live = [i for i, c in enumerate(cases) if c[0] == 4]
-    rest = [i for i, c in enumerate(cases) if c[0] != 4]
+    glob = [i for i, c in enumerate(cases) if c[0] == 5]
+    rest = [i for i, c in enumerate(cases) if c[0] not in (4, 5)]
     res = [None] * len(cases)
     # independent cases: several harness processes side by side (the stress runs get their own)
     nw = 6
@@ -306,6 +341,19 @@ def run_impl(ctx, cases, lines):
         for ch, got in zip(chunks, ex.map(batch, chunks)):
             for i, g in zip(ch, got):
                 res[i] = g
+    if glob:
+        def child(i):
+            try:
+                p = subprocess.run([vh, "facade"], input=(lines[i] + "\n").encode(), stdout=subprocess.PIPE,
+                                   stderr=subprocess.PIPE, timeout=60, env=vc.ENV)
+            except subprocess.TimeoutExpired:
+                return "xhang"
+            o = p.stdout.decode("utf-8", "replace").strip().split("\n")
+            return o[-1] if o and o[-1] else "xabort"
+
+        with ThreadPoolExecutor(max_workers=8) as ex:
+            for i, r in zip(glob, ex.map(child, glob)):
+                res[i] = r
     if live:
         # the model says what to wait for (bounded waits only; the comparison is done by the check)
         exp = vc.run_lines([ctx["drv"]], [lines[i] for i in live], timeout_per_batch=300,
@@ -413,6 +461,16 @@ def compare(c, impl, model):
                 return ("live reloader after edit %d (%s): (active config, #set_config) = %r, model %r"
                         % (n + 1, ACTIONS[c[5][n]] if n < len(c[5]) else "?", a, b))
         return None if len(impl) == len(want) else "number of observations differs"
+    if k == 5:
+        if len(impl) != len(model):
+            return "number of steps differs: impl %d, model %d" % (len(impl), len(model))
+        for n, (a, b) in enumerate(zip(impl, model)):
+            for (t, l), x, y in zip(c[3], a, b):
+                if sorted(x) != sorted(y):
+                    return ("after %s of config #%d returned, record (target %r, level %d) logged through log! was "
+                            "delivered to (config, appender) %r; the new configuration alone prescribes %r"
+                            % ("set_config" if n else "init_config", c[1][c[2][n]][0], t, l, x, y))
+        return None
     return "unknown case kind"
 
 
@@ -422,6 +480,8 @@ def nontrivial(c):
         return bool(c[3]) or any(op[0] == 1 for p in c[4] for op in p)
     if k in (1, 2):
         return True
+    if k == 5:
+        return len(c[2]) > 1
     return any(a not in (1,) for a in c[5])
 
 
@@ -433,6 +493,8 @@ def classify(c):
         return "stress"
     if k == 2:
         return "drop-probe"
+    if k == 5:
+        return "global-facade swaps=%d" % (len(c[2]) - 1)
     return "%s fmt=%s len=%d" % ("reload-step" if k == 3 else "reload-live", ["yaml", "json", "toml"][c[1]], len(c[4]))
 
 
@@ -447,5 +509,8 @@ def describe(c):
         return {"kind": "stress", "shapes": len(c[1]), "params(loggers,swappers,min_records,swaps,run)": c[3]}
     if k == 2:
         return {"kind": "drop probe", "old": c[2], "new": c[3], "probe": c[4]}
+    if k == 5:
+        return {"kind": "global logger behind the log facade", "config_sequence": [c[1][i][0] for i in c[2]],
+                "configs": c[1], "probes": len(c[3])}
     return {"kind": "reloader " + ("stepped" if k == 3 else "live thread"), "format": ["yaml", "json", "toml"][c[1]],
             "edits": [ACTIONS[a] for a in c[5]], "file_states": c[4]}
